@@ -9,7 +9,10 @@ import (
 	"strings"
 )
 
-type urlParts struct{ scheme, host, path value }
+type urlParts struct {
+	scheme, host, path value
+	user, pass        value // userinfo (nil: none)
+}
 
 func (i *interpreter) fieldIndex(t types.Type, name string) int {
 	st := t.Underlying().(*types.Struct)
@@ -81,9 +84,15 @@ func init() {
 	escape("net/url.QueryEscape", url.QueryEscape, unreserved)
 	escape("net/url.PathEscape", url.PathEscape, unreserved)
 	reg := func(name string, h intrinsic) { intrinsics[name] = h }
+	// verifURLUser(scheme, user, pass, host, path): a URL with userinfo
+	verifAPI["verifURLUser"] = func(fr *frame, a []value) value {
+		u := mkConcat(mkConcat(mkConcat(mkConcat(mkConcat(mkConcat(mkConcat(a[0], "://"), a[1]), ":"), a[2]), "@"), a[3]), a[4])
+		fr.i.path.memo["url|"+tStr(u)] = urlParts{scheme: a[0], host: a[3], path: a[4], user: a[1], pass: a[2]}
+		return u
+	}
 	verifAPI["verifURL"] = func(fr *frame, a []value) value {
 		u := mkConcat(mkConcat(mkConcat(a[0], "://"), a[1]), a[2])
-		fr.i.path.memo["url|"+tStr(u)] = urlParts{a[0], a[1], a[2]}
+		fr.i.path.memo["url|"+tStr(u)] = urlParts{scheme: a[0], host: a[1], path: a[2]}
 		return u
 	}
 	parse := func(fr *frame, raw value) (*value, value) {
@@ -98,7 +107,17 @@ func init() {
 		}
 		if m, ok := i.path.memo["url|"+tStr(raw)]; ok {
 			up := m.(urlParts)
-			return i.mkURL(up.scheme, up.host, up.path, ""), nilErr()
+			pu := i.mkURL(up.scheme, up.host, up.path, "")
+			if up.user != nil {
+				ut, us := i.newStruct("net/url", "Userinfo")
+				us[i.fieldIndex(ut, "username")] = up.user
+				us[i.fieldIndex(ut, "password")] = up.pass
+				us[i.fieldIndex(ut, "passwordSet")] = true
+				ucell := value(us)
+				urlT := i.namedType("net/url", "URL")
+				(*pu).(structure)[i.fieldIndex(urlT, "User")] = &ucell
+			}
+			return pu, nilErr()
 		}
 		// a concrete "scheme://host/..." prefix followed by path segments whose
 		// alphabets hold no URL meta character: everything after the host is the path
